@@ -135,12 +135,13 @@ def run(ctx, R, tier):
     connp = cd.params[1]
 
     def own(atom, pol):
-        if pol is not True:
-            return False
         for n in ast.walk(atom):
-            if isinstance(n, ast.Compare) and len(n.ops) == 1 and isinstance(n.ops[0], ast.Is) and unparse(n.comparators[0]) == connp and \
-                    isinstance(n.left, ast.Subscript) and isinstance(n.left.slice, ast.Constant) and n.left.slice.value == 0:
-                return True
+            if isinstance(n, ast.Compare) and len(n.ops) == 1 and connp in (unparse(n.left), unparse(n.comparators[0])):
+                if n is atom:
+                    if (isinstance(n.ops[0], ast.Is) and pol is True) or (isinstance(n.ops[0], ast.IsNot) and pol is False):
+                        return True
+                elif isinstance(n.ops[0], ast.Is) and pol is True and isinstance(atom, ast.BoolOp) and isinstance(atom.op, ast.And):
+                    return True
         return False
     muts = [(st, k) for st, t, k in stores_in(cd.node) if isinstance(t, ast.Subscript) and tbl_expr(t.value)]
     if len(muts) < 2:
